@@ -23,18 +23,56 @@ def gen_reservoir_case(rng, tier):
             # raw random: bias towards small indices (replacement) and the boundary idx == cap
             r = rng.choice([rng.randrange(0, 4), rng.randrange(0, 50), rng.randrange(0, 10 ** 6), cap, cap - 1])
             ops.append(['add', v, max(r, 0)])
-    return {'lab': 'reservoir', 'cap': cap, 'ops': ops}
+    case = {'lab': 'reservoir', 'cap': cap, 'ops': ops}
+    if rng.random() < 0.3:
+        # the first k values are handed to the constructor (data=...) instead of being added one by one
+        k = 0
+        while k < len(ops) and ops[k][0] == 'add' and k < 12:
+            k += 1
+        if k:
+            case['preload'] = rng.randint(1, k)
+            case['preload_kind'] = rng.choice(['iterator', 'list', 'tuple'])
+    return case
 
 
 def impl_reservoir(case):
     import clastic.middleware.stats as st
-    res = st.Reservoir(cap=case['cap'])
     obs = []
     cur = {'r': 0}
     orig = st.fast_randint
     st.fast_randint = lambda a, b: rnd_of(cur['r'], a, b)
+    npre = case.get('preload', 0)
     try:
-        for op in case['ops']:
+        if npre:
+            # Reservoir(cap, data=<first npre values>): the store after the constructor is the store after those adds.
+            # An iterator feeds the values (and the raw random number that goes with each) and photographs the container
+            # between two values; a list / tuple is handed over as it is and the result must be the same store
+            pre = case['ops'][:npre]
+            box = []
+
+            def feed():
+                for i, op in enumerate(pre):
+                    if i:
+                        obs.append(['ok', case['cap'], i, list(box)])
+                    cur['r'] = op[2]
+                    yield op[1]
+            try:
+                res = st.Reservoir(cap=case['cap'], data=feed(), container=box)
+                obs.append(['ok', res._cap, res.total_count, list(res)])
+                if case.get('preload_kind') in ('list', 'tuple') and npre <= case['cap']:
+                    vals = [op[1] for op in pre]
+                    res2 = st.Reservoir(cap=case['cap'], data=vals if case['preload_kind'] == 'list' else tuple(vals))
+                    if [res2._cap, res2.total_count, list(res2)] != obs[-1][1:]:
+                        obs[-1] = ['raise', 'PreloadedStoreDiffers:%r' % ([res2._cap, res2.total_count, list(res2)],)]
+                        return obs
+                    res = res2
+            except Exception as e:
+                del obs[:]
+                obs.append(['raise', type(e).__name__])
+                return obs
+        else:
+            res = st.Reservoir(cap=case['cap'])
+        for op in case['ops'][npre:]:
             try:
                 if op[0] == 'add':
                     cur['r'] = op[2]
@@ -99,6 +137,11 @@ KINDS = {
     # the wall clock steps backwards while the request is served (NTP adjustment): still one request
     'backclock': ('GET', '/backclock', [('/backclock', ['ret', 200])]),
     'unknown':  ('GET', '/nope', [(NULL, ['ret', 404])]),
+    # query strings as clients send them: raw bytes that are not UTF-8 (latin-1 form fields, binary tokens)
+    'ok_rawq':      ('GET', '/ok', [('/ok', ['ret', 200])], 'q=caf\xe9'),
+    'redir_rawq':   ('GET', '/redir', [('/redir', ['ret', 302])], 'next=\xff\xfe'),
+    'ret403_rawq':  ('GET', '/ret403', [('/ret403', ['ret', 403])], '\xe9'),
+    'unknown_rawq': ('GET', '/nope', [(NULL, ['ret', 404])], 'x=\xff\xfe&y=%ff'),
     'wrongmeth': ('DELETE', '/postonly', [(NULL, ['ret', 405])]),
     'post':     ('POST', '/postonly', [('/postonly', ['ret', 200])]),
     'head':     ('HEAD', '/ok', [('/ok', ['ret', 200])]),
@@ -226,7 +269,7 @@ def impl_stats(case):
     app, mw = build_stats_app()
     obs = []
     for k in case['ops']:
-        method, path, _ = KINDS[k]
+        method, path = KINDS[k][:2]
         if k == 'shrink':
             for hits in mw.route_hits.values():
                 for res in hits.values():
@@ -234,7 +277,7 @@ def impl_stats(case):
             obs.append({'status': 200, 'exc': None, 'after': snapshot(mw)})
             continue
         before = snapshot(mw)
-        q = 'format=json' if k in ('read', 'reset') else ''
+        q = 'format=json' if k in ('read', 'reset') else (KINDS[k][3] if len(KINDS[k]) > 3 else '')
         r = wsgi.get(app, path, method=method, query=q)
         rec = {'status': r.code, 'exc': type(r.exc).__name__ if r.exc else None, 'after': snapshot(mw)}
         if k in ('read', 'reset'):
@@ -261,6 +304,13 @@ def oracle_stats(case, obs):
     for k, o in zip(case['ops'], obs):
         if o.get('exc'):
             return ('request %s let %s escape' % (k, o['exc']), 'stats-escape')
+        hits = KINDS[k][2]
+        if hits:
+            last = hits[-1][1]
+            want_status = 500 if last[0] == 'exc' else last[1]
+            if o['status'] != want_status:
+                return ('request %s answered %s with the stats middleware installed; the route answers %s' % (k, o['status'], want_status),
+                        'stats-status')
         if k in ('read', 'reset'):
             if 'report' not in o:
                 return ('stats report unreadable: %s (status %s)' % (o.get('report_error'), o['status']), 'stats-report')
